@@ -10,11 +10,17 @@ pub struct BeanFactory<'b>(DashMap<&'b str, usize>);
 impl BeanFactory<'_> {
     fn get_instance<'i>() -> &'i BeanFactory<'i> {
         static INSTANCE: AtomicUsize = AtomicUsize::new(0);
-        let mut ret = INSTANCE.load(Ordering::Relaxed);
+        let mut ret = INSTANCE.load(Ordering::Acquire);
         if ret == 0 {
-            let ptr: &'i mut BeanFactory = Box::leak(Box::default());
-            ret = std::ptr::from_mut(ptr) as usize;
-            INSTANCE.store(ret, Ordering::Relaxed);
+            let ptr = Box::into_raw(Box::<BeanFactory>::default());
+            // only one of the threads racing on first use publishes its factory
+            match INSTANCE.compare_exchange(0, ptr as usize, Ordering::AcqRel, Ordering::Acquire) {
+                Ok(_) => ret = ptr as usize,
+                Err(winner) => {
+                    drop(unsafe { Box::from_raw(ptr) });
+                    ret = winner;
+                }
+            }
         }
         unsafe { &*(ret as *mut BeanFactory) }
     }
@@ -23,14 +29,13 @@ impl BeanFactory<'_> {
     pub fn init_bean<B>(bean_name: &str, bean: B) {
         let factory = Self::get_instance();
         if factory.0.get(bean_name).is_none() {
-            let bean: &B = Box::leak(Box::new(bean));
-            assert!(factory
-                .0
-                .insert(
-                    Box::leak(Box::from(bean_name)),
-                    std::ptr::from_ref(bean) as usize,
-                )
-                .is_none());
+            // check and insert in one step, another thread may init the same bean
+            if let dashmap::mapref::entry::Entry::Vacant(entry) =
+                factory.0.entry(Box::leak(Box::from(bean_name)))
+            {
+                let bean: &B = Box::leak(Box::new(bean));
+                drop(entry.insert(std::ptr::from_ref(bean) as usize));
+            }
         }
     }
 
@@ -71,12 +76,15 @@ impl BeanFactory<'_> {
         let factory = Self::get_instance();
         factory.0.get(bean_name).map_or_else(
             || {
-                let bean: &B = Box::leak(Box::default());
-                _ = factory.0.insert(
-                    Box::leak(Box::from(bean_name)),
-                    std::ptr::from_ref(bean) as usize,
-                );
-                bean
+                // check and insert in one step, every thread must get the published bean
+                let ptr = *factory
+                    .0
+                    .entry(Box::leak(Box::from(bean_name)))
+                    .or_insert_with(|| {
+                        let bean: &B = Box::leak(Box::default());
+                        std::ptr::from_ref(bean) as usize
+                    });
+                unsafe { &*(ptr as *mut c_void).cast::<B>() }
             },
             |ptr| unsafe { &*(*ptr as *mut c_void).cast::<B>() },
         )
@@ -92,12 +100,15 @@ impl BeanFactory<'_> {
         let factory = Self::get_instance();
         factory.0.get_mut(bean_name).map_or_else(
             || {
-                let bean: &mut B = Box::leak(Box::default());
-                _ = factory.0.insert(
-                    Box::leak(Box::from(bean_name)),
-                    std::ptr::from_ref(bean) as usize,
-                );
-                bean
+                // check and insert in one step, every thread must get the published bean
+                let ptr = *factory
+                    .0
+                    .entry(Box::leak(Box::from(bean_name)))
+                    .or_insert_with(|| {
+                        let bean: &mut B = Box::leak(Box::default());
+                        std::ptr::from_ref(bean) as usize
+                    });
+                &mut *(ptr as *mut c_void).cast::<B>()
             },
             |ptr| &mut *(*ptr as *mut c_void).cast::<B>(),
         )
